@@ -23,7 +23,7 @@ func journal(id, check string, c interface{}) {
 		return
 	}
 	raw, _ := json.Marshal(c)
-	b, _ := json.Marshal(replayFile{Property: id, Check: check, Error: "process crashed while running this case", Case: raw})
+	b, _ := json.Marshal(replayFile{Property: id, Check: check, Error: "process crashed while running this case", Case: raw, Arch: buildArch()})
 	os.WriteFile(filepath.Join(dir, fmt.Sprintf("journal-%s-%d.json", id, envShard)), b, 0o644)
 }
 
